@@ -412,7 +412,7 @@ def main():
                          note="witness history of one open defect as seen by VerifC13XHistory, parameters (region, init, mode, o1..o6): only "
                               "the exact expectations inside that region are asserted, behind vrt.Carve(id, true). " + XNOTE))
     yall = [[scn, v] for scn in range(len(YNV)) for v in range(YNV[scn])]
-    spec.append(dict(xcommon, id="C13.x.api", entry="VerifC13XApi", reach=["compared"], cases={"quick": yall, "thorough": yall},
+    spec.append(dict(xcommon, id="C13.x.api", entry="VerifC13XApi", reach=["compared"], opaque_int_text=True, cases={"quick": yall, "thorough": yall},
                      note="all scenarios and variants. " + YNOTE))
     for fid in range(1, len(YIDS)):
         ws = [[fid, scn, v] for scn, v in YWIT[fid]]
